@@ -130,6 +130,43 @@ CLAIMED["C06"] = (
     "DESIGN.md section 2, C05/C06",
 )
 
+CLAIMED["C19"] = (
+    "provenance analysis of literal term lists (operator site / coefficient site / coordination index); structural checks of the from_edges builders",
+    "Static: in every local builder an on-site term of site k carries +-X_k / coordinations[k] and two-site terms are not divided; "
+    "every from_edges builder counts both ends of every edge once before use and passes coordinations and per-site values in edge "
+    "order; the edge factory looks up (a,b) then (b,a); the site description orients sorted edges, shares one index name per bond "
+    "with directions 0/1 and takes the coordination before the physical index is appended." + PARTIAL_NOTE,
+    "The operator matrices themselves and the numerical sum over edges are not decided.",
+    "DESIGN.md section 2, C19",
+)
+CLAIMED["C04"] = (
+    "exhaustive abstract evaluation of the label comparison over order types; path rule (exchange => sign) on the phased sort",
+    "Static: FermionicOperator.__lt__/__eq__ are a strict total order for every totally ordered label type (all 13 order types "
+    "of three labels x 8 direction assignments); labels are used only through comparisons; on every branch path of the phased "
+    "sort an exchange costs exactly one sign, a conjugate pair costs a sign iff ket-then-bra, duplicates raise, the cross-over "
+    "sign has the documented condition, and the phase reaches the array only through phase_global." + PARTIAL_NOTE,
+    "Associativity of values and signs over whole networks is not decided.",
+    "DESIGN.md section 2, C04",
+)
+CLAIMED["C18"] = (
+    "path rule (exchange => sign) on the operator sort; structural checks of bra basis and array assembly; constant check of charge maps against literal bases",
+    "Static: in the phased bubble sort an adjacent exchange costs exactly one sign and the entry accumulates phase * coeff under the "
+    "vacuum-pattern test; bra bases are the per-site dagger of the same bases in the same site order; the array is assembled with "
+    "duals ket-then-bra, doubled index maps, fermionic=True; the literal charge maps agree with the literal bases (parity / "
+    "number / (up,down) occupation of each basis state)." + PARTIAL_NOTE,
+    "Values and signs of the elements, hermiticity, spectra and operator composition are not decided.",
+    "DESIGN.md section 2, C18",
+)
+CLAIMED["C03"] = (
+    "convention cross-check of all pair-sign sites; def-use check of the permutation; exhaustive abstract evaluation of the Koszul sign function",
+    "Static: every site inserting the ket-then-bra pair sign (tensordot both branches, matmul, trace, einsum key, qr/svd/eigh/solve) "
+    "follows one convention and unclassified direction-dependent sign sites are reported; the permutation used for the sign is the "
+    "one applied to the data and the virtual reversal covers exactly the contracted axes; calc_phase_permutation equals the parity "
+    "of inversions among odd entries for all parity vectors and permutations up to length 4." + PARTIAL_NOTE,
+    "Element-wise agreement with an independent graded dense calculation is not decided.",
+    "DESIGN.md section 2, C03",
+)
+
 PENDING = "check not built yet (construction in progress; see DESIGN.md section 2 for the planned static rule)"
 NOT_APPLICABLE = {
     "C07": "reshape content preservation and the axis-matching routine are arithmetic over runtime shapes; no clause is a "
